@@ -457,6 +457,14 @@ def normalise(run):
             info["diverge"] = e
         elif ev == "sched_end":
             info["sched_end"] = e
+    info["crash"] = False
+    if not run.killed and info["timeout"] is None and not info["abort"] and not any(e["ev"] == "bye" for e in evs):
+        # the probe process died (signal / abort inside the code under test): data, not a tool error
+        info["crash"] = True
+        t = threads.get(h_cur) if h_cur is not None else (cur_spawn or (order[-1] if order else None))
+        if t is None:
+            raise core.ToolError("probe run %s died before any thread was spawned (rc=%s)" % (run.name, run.rc))
+        emit(t, {"e": "crash"})
     if run.killed and info["timeout"] is None:
         # the probe process itself had to be killed: a hang beyond its own watchdog
         t = threads.get(h_cur) if h_cur is not None else (cur_spawn or (order[-1] if order else None))
@@ -470,9 +478,10 @@ def normalise(run):
     if run.strace is not None:
         attach_strace(run, order, info, batches)
     # ---- end events
-    quiet = not (info["abort"] or info["timeout"] or run.killed)
+    quiet = not (info["abort"] or info["timeout"] or run.killed or info["crash"])
     for t in order:
-        if t.sys is not None:
+        if t.sys is not None and (t.sys["exited"] or quiet):
+            # (a thread that was still alive when the run was cut short has no complete record)
             s = t.sys
             if s["own"] >= 1:
                 emit(t, {"e": "rel", "r": "stack", "by": "T"})
